@@ -1,6 +1,6 @@
 (* Edits of configuration graphs and class tables, used to state the
    neutrality theorems (C01, C02, C20).  Definitions only.                 *)
-From Coq Require Import List Bool.
+From Coq Require Import List Bool Permutation.
 From XV Require Import core.Value.
 Import ListNotations.
 
@@ -25,3 +25,12 @@ Fixpoint set_field (k : bytes) (v : value) (l : list (bytes * value)) : list (by
   end.
 
 Definition with_args (c : class) (args : list argdecl) : class := {| c_tid := c_tid c; c_args := args |}.
+
+(* the same value with dict items inserted in another order (at any depth) *)
+Inductive vperm : value -> value -> Prop :=
+| vp_refl v : vperm v v
+| vp_list l l' : Forall2 vperm l l' -> vperm (VList l) (VList l')
+| vp_dict l l1 l' :
+    Forall2 (fun a b : bytes * value => fst a = fst b /\ vperm (snd a) (snd b)) l l1 ->
+    Permutation l1 l' -> NoDup (map fst l) ->
+    vperm (VDict l) (VDict l').
